@@ -18,6 +18,8 @@ const (
 	S16   SlotKind = 16
 	S32   SlotKind = 32
 	S64   SlotKind = 64
+	SF32  SlotKind = 33 // float32: FP-sorted in registers, 32-bit cell in H32
+	SF64  SlotKind = 65 // float64: FP-sorted in registers, 64-bit cell in H64
 )
 
 func (k SlotKind) heapIdx() int {
@@ -26,15 +28,20 @@ func (k SlotKind) heapIdx() int {
 		return 0
 	case S16:
 		return 1
-	case S32:
+	case S32, SF32:
 		return 2
 	}
 	return 3
 }
 
 func (k SlotKind) width() int {
-	if k == SBool {
+	switch k {
+	case SBool:
 		return 8
+	case SF32:
+		return 32
+	case SF64:
+		return 64
 	}
 	return int(k)
 }
@@ -65,10 +72,14 @@ func (l *layoutCache) slots(T types.Type) []SlotKind {
 			out = []SlotKind{S8}
 		case types.Int16, types.Uint16:
 			out = []SlotKind{S16}
-		case types.Int32, types.Uint32, types.Float32, types.UntypedRune:
+		case types.Int32, types.Uint32, types.UntypedRune:
 			out = []SlotKind{S32}
-		case types.Int, types.Uint, types.Int64, types.Uint64, types.Uintptr, types.Float64,
-			types.UnsafePointer, types.UntypedInt, types.UntypedFloat:
+		case types.Float32:
+			out = []SlotKind{SF32}
+		case types.Float64, types.UntypedFloat:
+			out = []SlotKind{SF64}
+		case types.Int, types.Uint, types.Int64, types.Uint64, types.Uintptr,
+			types.UnsafePointer, types.UntypedInt:
 			out = []SlotKind{S64}
 		case types.String, types.UntypedString:
 			out = []SlotKind{S64, S64}
@@ -151,4 +162,17 @@ func intWidth(T types.Type) int {
 		return 32
 	}
 	return 64
+}
+
+// regSort is the SMT sort of a register holding a slot of kind k.
+func regSort(k SlotKind) Sort {
+	switch k {
+	case SBool:
+		return Bool
+	case SF32:
+		return Sort{KFP, 32}
+	case SF64:
+		return Sort{KFP, 64}
+	}
+	return BV(int(k))
 }
